@@ -43,6 +43,19 @@ def log_event(kind, **fields):
         pass
 
 
+def register_stack_dump():
+    """SIGUSR2 -> all thread stacks of THIS process into $MPIRE_VERIF_DIR/stacks.<pid> (diagnostics for hangs)"""
+    if not _DIR:
+        return
+    try:
+        import faulthandler
+        fh = open(os.path.join(_DIR, f"stacks.{os.getpid()}"), 'w')
+        faulthandler.register(signal.SIGUSR2, file=fh, all_threads=True, chain=False)
+        _fds[('stacks', os.getpid())] = fh
+    except (OSError, ValueError, AttributeError, RuntimeError):
+        pass
+
+
 def current_instance():
     return getattr(_local, 'token', None)
 
@@ -73,6 +86,9 @@ def _apply_plan(actor, method, worker_id):
         if act.startswith('sleep:'):
             time.sleep(float(act.split(':', 1)[1]))
         elif act == 'kill':
+            os.kill(os.getpid(), signal.SIGKILL)
+        elif act == 'qkill':         # let the feeder threads quiesce first
+            time.sleep(0.3)
             os.kill(os.getpid(), signal.SIGKILL)
         elif act.startswith('wait_file:'):
             path = act.split(':', 1)[1]
@@ -150,6 +166,8 @@ def install():
     def run(self):
         _local.token = f"{self.worker_id}:{os.getpid()}:{threading.get_ident()}:{time.monotonic_ns()}"
         _local.worker_id = self.worker_id
+        if threading.current_thread() is threading.main_thread():
+            register_stack_dump()
         log_event('instance_start', worker_id=self.worker_id)
         try:
             return orig_run(self)
